@@ -25,7 +25,7 @@ def model_cfg(spec, cfg=None):
             return None
         pw, fl = spec.get("pw", 0), spec.get("fl", 0)
         if kind == "cdc" and spec.get("common_rst") and (pw or fl):
-            return None
+            return None     # the factory builds the with_common_rst DUT with a payload-only layout
         return dict(_BASE, cls="AsyncFIFO", ab=ab, depth=depth, buffered=int(bool(spec.get("buffered"))),
                     dw=spec.get("dw", 1) - pw - 2 * fl, pw=pw, fl=fl, rst=int(bool(spec.get("common_rst"))))
     if kind == "bus" and spec["width"] > 1:
@@ -152,6 +152,228 @@ def _entry(spec, **over):
     return {"c": c, "m": m, "spec": spec}
 
 
-# smallest time-out of BusSynchronizer for which no word is torn at clock drift R, as established on the model
-# (M-mode, every interleaving within the drift bound, every metastable resolution); one less tears a word (canary)
-BUS_MIN_TIMEOUT = {}
+
+
+# ------------------------------------------------------------------------------ conformance (compact case format)
+def graph_cases(gl, lane=None):
+    """all edges of the graphs of a GraphLoop run in the format of CdcModelConf: per DUT with a model the table of
+    projected states and the cases [s, iv, o, [d, ...]] (every metastable resolution).  A projection that fails
+    (a modelled register is no longer there) is returned as {"spec", "m", "error"}."""
+    from .. import l2
+    lane = lane or LANE
+    out = []
+    pool = gl._pool()
+    for g in gl.duts:
+        m = lane.model_cfg(g.spec, g.cfg)
+        if m is None:
+            continue
+        try:
+            _, ix = pool.apply(l2._wproj, ((g.spec_json, lane.proj_path),))
+        except KeyError as ex:
+            out.append({"spec": g.spec, "m": m, "error": str(ex), "states": [], "cases": []})
+            continue
+        states = [l2.project(ix, s) for s in g.states]
+        cases = []
+        for s, edges in enumerate(g.succ):
+            for k, (o, d) in edges.items():
+                iv = g.alphabet.get(k)
+                if iv is None:
+                    iv = tuple(int(x) for x in k.strip("<>").split(",")) if k.strip("<>").strip() else ()
+                cases.append([s, list(iv), list(o), list(d) if isinstance(d, (list, tuple)) else [d]])
+        out.append({"spec": g.spec, "m": m, "reset": states[0], "states": states, "cases": cases})
+    return out
+
+
+def run_cases(spec, schedule, observed=None):
+    """cycle-by-cycle run of the real netlist from reset on the reference evaluator under the recorded two-clock
+    schedule (no injection) in the format of CdcModelConf; `observed`: the outputs the ordinary simulator showed at
+    the same instants (cross-check of the replay).  -> dict like graph_cases, or None (no model)"""
+    from .. import l2
+    from ..fhdl_step import Stepper
+    from ..report import MachineryError
+    m = model_cfg(spec)
+    if m is None:
+        return None
+    made = fam.make(spec)
+    opts = made[3]
+    st = Stepper(made[0], made[1], made[2], clocks=tuple(opts["clocks"]), engine="ref")
+    try:
+        ix = l2.proj_index(st, LANE.proj_path, spec)
+    except KeyError as ex:
+        return {"spec": spec, "m": m, "error": str(ex), "states": [], "cases": []}
+    st.load(st.reset_state, tuple(0 for _ in st.inputs))
+    states = [l2.project(ix, st.state())]
+    cases = []
+    for k, iv in enumerate(schedule):
+        iv = tuple(iv)
+        st.load(st.state(), opts["strip_input"](iv))
+        o = [int(x) for x in st.peek()]
+        if observed is not None and o != [int(x) for x in observed[k]]:
+            raise MachineryError("replay of a T-mode run of %r on the stepper diverges from the simulator at instant %d: "
+                                 "%r vs %r" % (spec, k + 1, o, observed[k]))
+        st.tick(opts["cds_from_input"](iv))
+        states.append(l2.project(ix, st.state()))
+        cases.append([k, list(iv), o, [k + 1], 0])
+    return {"spec": spec, "m": m, "reset": states[0], "states": states, "cases": cases}
+
+
+def expand_case(dut, case):
+    """case of the compact format -> [registers, inputs, outputs, [next registers, ...]] (for the drift note)"""
+    return [dut["states"][case[0]], case[1], case[2], [dut["states"][x] for x in case[3]]]
+
+
+def conformance(duts, lane=None, timeout=1800, workers=4, heap="6g"):
+    """TLC (CdcModelConf) judges every case of every DUT: one initial state per case.  -> (cases judged, drifts);
+    a drift is dict(spec, m, clause, case) as in harness.l2.conformance (case expanded)."""
+    import json
+    import os
+    import shutil
+    import tempfile
+    from .. import tlc as tlcmod
+    from ..report import MachineryError
+    lane = lane or LANE
+    drifts = [{"spec": d["spec"], "m": d["m"], "clause": "Projection", "error": d["error"],
+               "case": [{}, [], [], "register not found in the netlist: " + d["error"]]} for d in duts if d.get("error")]
+    duts = [d for d in duts if d["cases"]]
+    if not duts:
+        return 0, drifts
+    scratch = tempfile.mkdtemp(prefix="verif-l2-", dir=os.environ.get("VERIF_SCRATCH", "/var/tmp"))
+    n = sum(len(d["cases"]) for d in duts)
+    try:
+        live = list(range(len(duts)))
+        while live:
+            path = os.path.join(scratch, "cases.json")
+            with open(path, "w") as f:
+                json.dump({"duts": [{k: duts[i][k] for k in ("m", "reset", "states", "cases")} for i in live]},
+                          f, separators=(",", ":"))
+            cfg = "INIT Init\nNEXT Next\nCHECK_DEADLOCK FALSE\n" + "".join("INVARIANT %s\n" % c for c in lane.clauses)
+            res = tlcmod.run(lane.conf_module, cfg, env={"CASES": path}, timeout=timeout, scratch=scratch,
+                             workers=workers, heap=heap)
+            if res.errors:
+                raise MachineryError("TLC failed in L2 conformance (%s): %s\n%s" % (lane.name, " | ".join(res.errors[:4]), res.out[-1500:]))
+            if not res.violated:
+                want = sum(len(duts[i]["cases"]) for i in live)
+                if res.distinct != want:
+                    raise MachineryError("L2 conformance (%s): %d cases judged, %d expected" % (lane.name, res.distinct, want))
+                break
+            last = res.trace[-1]["vars"] if res.trace else {}
+            i, j = last.get("i"), last.get("j")
+            if not isinstance(i, int) or not isinstance(j, int):
+                raise MachineryError("L2 conformance: violation of %s without a parsable state" % res.violated)
+            real = live[i - 1]
+            drifts.append({"spec": duts[real]["spec"], "m": duts[real]["m"], "clause": res.violated,
+                           "case": expand_case(duts[real], duts[real]["cases"][j - 1])})
+            live = [x for x in live if x != real]
+    finally:
+        shutil.rmtree(scratch, ignore_errors=True)
+    return n, drifts
+
+
+# ------------------------------------------------------------------------------ M-mode sweeps
+SAFETY = ["InOrderExactlyOnce", "ValidHold", "NeverOverflows", "OnlyRealWords", "EmptyAfterReset", "NoSpuriousPulse",
+          "EveryPulseOnce"]
+# BusSynchronizer: shortest time-out for which no word is ever torn at clock drift R (between two edges of one clock at
+# most R edges of the other), established on the model in M-mode (every interleaving, every metastable resolution) and
+# kept honest by the canaries: with one count less a torn word is reachable - on the model, and the counterexample
+# reproduces on the real netlist.  It is the worst-case request/acknowledge round trip in write-clock edges:
+# 4 R + 6  (R = 1: 10, R = 2: 14, R = 3: 18, R = 4: 22).
+def bus_min_timeout(r):
+    return 4 * r + 6
+
+
+MMODE_LARGEST = {
+    "quick": "AsyncFIFO depth 8 (single-valued tokens) and depth 4 (two-valued) under unbounded clock drift; BusSynchronizer width 3-4 at drift 1..3 with time-out 4R+6",
+    "thorough": "AsyncFIFO depth 16 under unbounded clock drift, depth 4 buffered with two-valued data, packed param/first/last; "
+                "common reset at depth 8 / drift 3 / two-valued data; BusSynchronizer width 4 at drift 1..4 with time-out 4R+6; "
+                "PulseSynchronizer drift 6",
+}
+
+
+def mmode_configs(tier):
+    """groups of M-mode configurations; one TLC run of CdcModelM per group.
+    group = dict(name, what, entries=[{c, m, spec, live}], invs, props, expect (canary: clause that MUST fail), workers, heap).
+    FIFO crossings: r = 0 = UNBOUNDED relative drift of the two clocks.  Single-valued tokens (dset (1,), power-up storage
+    0) expose drops, duplicates, deliveries from an empty FIFO and reads of never-written slots; two-valued tokens
+    also reads from a wrong written slot / reordering."""
+    th = tier == "thorough"
+    G = []
+
+    def ent(live=0, **spec):
+        e = _entry(spec)
+        e["live"] = live
+        return e
+
+    def fifo(**kw):
+        return ent(kind="asyncfifo", dw=1, r=0, **kw)
+
+    def crst(**kw):
+        d = dict(kind="cdc", common_rst=1, depth=4, dw=1, dset=(1,), rst=3, nrst=0)
+        d.update(kw)
+        return ent(**d)
+
+    # ---- FIFO crossings, unbounded drift, safety
+    L = [fifo(depth=4), fifo(depth=8, dset=(1,)), fifo(depth=4, dset=(1,), buffered=True)]
+    if th:
+        L += [fifo(depth=8, dset=(1,), buffered=True), fifo(depth=16, dset=(1,)), fifo(depth=4, buffered=True),
+              ent(kind="asyncfifo", depth=4, dw=4, pw=1, fl=1, r=0, dset=(6, 9)),
+              ent(kind="cdc", depth=8, dw=1, r=0, dset=(1,), buffered=True)]
+    G.append({"name": "fifo-unbounded-drift", "what": "stream.AsyncFIFO / ClockDomainCrossing, any interleaving of the two clocks",
+              "entries": L, "invs": SAFETY, "props": []})
+    # ---- FIFO crossings, unbounded drift, liveness (both clocks keep ticking, producer and consumer cooperate)
+    L = [ent(live=1, kind="asyncfifo", dw=1, r=0, depth=4, dset=(1,)),
+         ent(live=1, kind="asyncfifo", dw=1, r=0, depth=4, dset=(1,), buffered=True)]
+    if th:
+        L += [ent(live=1, kind="asyncfifo", dw=1, r=0, depth=8, dset=(1,))]
+    G.append({"name": "fifo-unbounded-drift-progress", "what": "Progress under unbounded drift", "entries": L,
+              "invs": ["InOrderExactlyOnce"], "props": ["Progress"]})
+    # ---- common reset (the quick tier's G-mode explores r = 2, rh = 5 with single-valued tokens on the netlist itself)
+    if th:
+        L = [crst(r=3, rh=6), crst(r=2, rh=5, dset=(0, 1)), crst(r=2, rh=5, depth=8), crst(r=2, rh=5, buffered=True)]
+        G.append({"name": "common-rst", "what": "ClockDomainCrossing(with_common_rst), reset pulses of either domain held for R + 3 edges",
+                  "entries": L, "invs": SAFETY, "props": []})
+    # ---- BusSynchronizer at the shortest safe time-out
+    if th:
+        L = [ent(kind="bus", width=3, timeout=bus_min_timeout(r), r=r, dset=(0, 7, 5)) for r in (1, 2, 3)]
+        L += [ent(kind="bus", width=4, timeout=bus_min_timeout(r), r=r, dset=(0, 15, 9)) for r in (1, 2, 3, 4)]
+        L += [ent(kind="bus", width=4, timeout=bus_min_timeout(r), r=r, dset=(0, 15, 5, 10)) for r in (1, 2, 3)]
+        L += [ent(kind="bus", width=4, timeout=bus_min_timeout(3) + 14, r=3, dset=(0, 15, 9))]
+    else:
+        L = [ent(kind="bus", width=3, timeout=bus_min_timeout(1), r=1, dset=(0, 7, 5)),
+             ent(kind="bus", width=4, timeout=bus_min_timeout(2), r=2, dset=(0, 15, 9)),
+             ent(kind="bus", width=4, timeout=bus_min_timeout(3), r=3, dset=(0, 15))]
+    G.append({"name": "bus-min-timeout", "what": "BusSynchronizer width 3-4, drift R = 1..3, time-out 4R+6 (just above the round trip)",
+              "entries": L, "invs": SAFETY, "props": []})
+    L = [ent(live=1, kind="bus", width=3, timeout=bus_min_timeout(1), r=1, dset=(0, 7, 5))]
+    if th:
+        L += [ent(live=1, kind="bus", width=3, timeout=bus_min_timeout(2), r=2, dset=(0, 7, 5)),
+              ent(live=1, kind="bus", width=4, timeout=bus_min_timeout(3), r=3, dset=(0, 15))]
+    G.append({"name": "bus-fresh", "what": "a bus word that stops changing is eventually shown for good", "entries": L,
+              "invs": ["OnlyRealWords"], "props": ["FreshAll"]})
+    # ---- PulseSynchronizer
+    L = [ent(kind="pulse", r=r, quiet=r + 1) for r in ((1, 2, 3, 4, 5, 6) if th else (1, 2, 3, 4))]
+    G.append({"name": "pulse", "what": "PulseSynchronizer, R + 1 quiet input cycles after a pulse", "entries": L,
+              "invs": SAFETY, "props": []})
+    # ---- canaries: premise of the property broken, the clause MUST fail on the model (and then on the netlist);
+    # one TLC worker: breadth-first, the shortest counterexample, the same one in every run
+    can = [dict(kind="bus", width=3, timeout=bus_min_timeout(1) - 1, r=1, dset=(0, 7, 5)),
+           dict(kind="bus", width=4, timeout=bus_min_timeout(3) - 1, r=3, dset=(0, 15))]
+    if th:
+        can += [dict(kind="bus", width=4, timeout=bus_min_timeout(2) - 1, r=2, dset=(0, 15, 9)),
+                dict(kind="bus", width=4, timeout=bus_min_timeout(4) - 1, r=4, dset=(0, 15)),
+                dict(kind="bus", width=2, timeout=8, r=1, dset=(0, 3))]
+    for s in can:
+        G.append({"name": "canary-bus-w%d-r%d-t%d" % (s["width"], s["r"], s["timeout"]),
+                  "what": "time-out one count below the round trip: a torn word must be reachable",
+                  "entries": [ent(**s)], "invs": ["OnlyRealWords"], "props": [], "expect": "OnlyRealWords", "workers": 1, "heap": "4g"})
+    # the recorded finding C05-common-rst-short-pulse-stale-pointers is part of the model (reset_less synchroniser flops):
+    # with a common reset pulse shorter than R + 3 edges of each clock the model, too, shows a stale pointer after the release
+    for rh in ((1, 3) if th else (3,)):
+        G.append({"name": "canary-common-rst-hold-%d" % rh, "what": "common reset pulse held for fewer than R + 3 edges (recorded "
+                  "finding of the unchanged tree): the model must show the stale pointer as the netlist does",
+                  "entries": [crst(r=1, rh=rh, nrst=1, short_reset=1)], "invs": ["EmptyAfterReset"], "props": [],
+                  "expect": "EmptyAfterReset", "workers": 1, "heap": "4g"})
+    for r in ((3, 5) if th else (3,)):
+        G.append({"name": "canary-pulse-r%d" % r, "what": "only R quiet cycles after a pulse: a pulse must get lost",
+                  "entries": [ent(kind="pulse", r=r, quiet=r)], "invs": ["EveryPulseOnce"], "props": [], "expect": "EveryPulseOnce",
+                  "workers": 1, "heap": "4g"})
+    return G
